@@ -273,4 +273,5 @@ reg(Check("C15", "model_checking",
           text=XS_NOTE, note="trusted: memdb, instrumenter/scheduler", technique="explicit-state model checking over the real handlers against a reference state machine",
           engine="E2 xstate", claimed=True,
           parts=[Part("call", SRV, "^TestVerifC15Call$", instr=True, gomaxprocs=16, deadline=(300, 2400)),
-                 Part("call-off", SRV, "^TestVerifC15CallOff$", instr=True, gomaxprocs=16, deadline=(120, 600))]))
+                 Part("call-off", SRV, "^TestVerifC15CallOff$", instr=True, gomaxprocs=16, deadline=(120, 600)),
+                 Part("call-fault", SRV, "^TestVerifC15Fault$", instr=True, gomaxprocs=16, deadline=(300, 2400))]))
